@@ -23,7 +23,12 @@ fn stack_walker(g: &mut Gen, model: &Model, tree: &[Node], has_links: bool, stat
         victims: vec![],
         layers: vec![],
         taps: g.rng.chance(1, 2),
+        erased: false,
     };
+    // a third of the stacks are built with type erasure between the layers (H3); a third of those
+    // are deeper than the statically composed type allows (5 to 10 layers plus the observer)
+    w.erased = g.rng.chance(1, 3);
+    let max_layers = if w.erased && g.rng.chance(1, 3) { 10 } else { max_layers };
     let mut victims = Vec::new();
     w.layers = layers(
         g,
